@@ -236,17 +236,20 @@ def plan(prop, tier, seed=0):
     B3 = (1, 1, 1, 2) if q else (1, 2, 1, 3)        # triples
     B1 = (1, 2, 1, 3) if q else (2, 3, 2, 5)        # single-signature units
     BS = (1, 1, 1, 2) if q else (1, 2, 1, 3)        # expensive pair units (forwards)
+    # properties whose clauses ride on the paths of merge / embed / mask / forwards (C08, C10, C11, C15, C16): their thorough tier goes
+    # beyond quick in every group but does not repeat the full pair space of C01 / C02 / C09, whose thorough tiers cover it
+    BX = (1, 2, 1, 3) if q else (1, 2, 1, 4)
     if prop == 'C01':
         G += [g_merge(prop, B2, 2), g_merge(prop, B3, 3, 400 if q else 5000, seed), g_folds(prop)]
         if q:
             G += [g_merge(prop, (2, 0, 0, 2), 2)]        # several positional-only parameters against star parameters (within B2 of the thorough tier)
     elif prop == 'C09':
         G += [g_merge(prop, B2, 2), g_merge(prop, B3, 3, 200 if q else 2500, seed), g_mask(prop, B1, 0, 'zero'),
-              g_embed(prop, B3 if q else B2, 'embed'), g_merge_laws(prop, B1, B3, 300 if q else 2500, seed)]
+              g_embed(prop, B3 if q else BX, 'embed'), g_merge_laws(prop, B1, B3, 300 if q else 1500, seed)]
         if q:
             G += [g_merge(prop, (2, 0, 0, 2), 2)]
     elif prop == 'C02':
-        G += [g_embed(prop, B2, 'embed'), g_embed(prop, (1, 1, 0, 1) if q else B3, 'fold', 300 if q else 6000, seed)]
+        G += [g_embed(prop, B2, 'embed'), g_embed(prop, (1, 1, 0, 1) if q else B3, 'fold', 300 if q else 2500, seed)]
     elif prop == 'C03':
         G += [g_mask(prop, B1, 1), g_mask(prop, B1, 2, hide=not q), g_mask(prop, B1, 2, 'order'), g_mask(prop, B1, 0, 'zero'),
               g_mask(prop, B1, 0, 'maskmask')]
@@ -265,8 +268,8 @@ def plan(prop, tier, seed=0):
             G += [g_partial(prop, (1, 1, 1, 2), 0, 'stored')]
         if prop in ('C08', 'C16'):
             G += [g_shared_callable(prop, (0, 1, 1, 1) if q else (1, 1, 1, 2))]
-        G += [g_merge(prop, B2, 2), g_merge(prop, B3, 3, 150 if q else 4000, seed), g_mask(prop, B1, 1), g_embed(prop, B3 if q else B2, 'embed'),
-              g_forwards(prop, BS, 1, 60 if q else 1200, seed)]
+        G += [g_merge(prop, BX, 2), g_merge(prop, B3, 3, 150 if q else 1000, seed), g_mask(prop, B1, 1), g_embed(prop, B3 if q else BX, 'embed'),
+              g_forwards(prop, BS, 1, 60 if q else 400, seed)]
         if prop in ('C08', 'C10', 'C11'):
             G += [g_partial(prop, B1, 1), g_partial(prop, B1 if q else (1, 2, 1, 3), 0, 'plain'), g_partial(prop, B1 if q else (1, 2, 1, 3), 0, 'wrapped')]
     if prop == 'C15':
@@ -302,7 +305,7 @@ def plan(prop, tier, seed=0):
     if prop in ('C05', 'C06', 'C07'):
         G += [g_discovery(prop, q)]
     if prop in ('C05', 'C07'):
-        G += [g_forwards(prop, BS, 1, 60 if q else 1200, seed)]      # narrowing: every element of discovery only accepts what the def accepts
+        G += [g_forwards(prop, BS, 1, 60 if q else 400, seed)]      # narrowing: every element of discovery only accepts what the def accepts
     if prop in ('C04', 'C05', 'C06', 'C07', 'C15', 'C16', 'C13'):
         G += [g_retrieval(prop)]
     if prop == 'C11':
